@@ -435,6 +435,8 @@ pub struct SimSend {
     net: Net,
     id: u64,
     writing: Option<WriteBuf<Bytes>>,
+    /// mirror the pre-fix h3-quinn behaviour (keep the buffer of a failed write)
+    keep_failed_write: bool,
 }
 
 pub struct SimBidi {
@@ -585,7 +587,12 @@ impl quic::SendStream<Bytes> for SimSend {
                     return Poll::Pending;
                 }
                 Poll::Ready(Err(e)) => {
-                    self.writing = Some(w);
+                    // the write failed for good (stream stopped / connection gone): the unit is dropped.
+                    // (h3-quinn kept it, which turned the next send_data into a connection-level InternalError:
+                    //  finding D18, repaired in h3-quinn and checked against the real adapter by C17.)
+                    if self.keep_failed_write {
+                        self.writing = Some(w);
+                    }
                     return Poll::Ready(Err(e));
                 }
                 Poll::Ready(Ok(_)) => {}
@@ -730,7 +737,7 @@ pub struct SimOpener {
 }
 
 fn mk_bidi(net: &Net, id: u64) -> SimBidi {
-    SimBidi { s: SimSend { net: net.clone(), id, writing: None }, r: SimRecv { net: net.clone(), id } }
+    SimBidi { s: SimSend { net: net.clone(), id, writing: None, keep_failed_write: false }, r: SimRecv { net: net.clone(), id } }
 }
 
 macro_rules! impl_open {
@@ -753,7 +760,7 @@ macro_rules! impl_open {
                 match r {
                     Poll::Pending => Poll::Pending,
                     Poll::Ready(Err(e)) => Poll::Ready(Err(e)),
-                    Poll::Ready(Ok(id)) => Poll::Ready(Ok(SimSend { net: self.net.clone(), id, writing: None })),
+                    Poll::Ready(Ok(id)) => Poll::Ready(Ok(SimSend { net: self.net.clone(), id, writing: None, keep_failed_write: false })),
                 }
             }
 
